@@ -139,12 +139,13 @@ func runC01(c *core.Ctx) {
 			minDepth = x.DepthDone
 		}
 		// relative keys, deeper
-		sp.depth, sp.relative = relDepth, true
+		sp.depth, sp.relative, sp.conform = relDepth, true, 12
 		runSearch(c, sp)
 		if c.Expired() {
 			break
 		}
 	}
+	runConformance(c)
 	c.Set("depth_completed_absolute_keys", minDepth)
 	c.Set("depth_target_relative_keys", relDepth)
 }
